@@ -8,6 +8,7 @@ package commitlog
 // compared with an independent reference model (a slice of records).
 
 import (
+	"bytes"
 	"context"
 	"fmt"
 	"os"
@@ -724,4 +725,219 @@ func TestVerifC01Concurrent(t *testing.T) {
 		l.Close()
 		os.RemoveAll(dir)
 	}
+}
+
+// ---------------------------------------------------------------- tail-following readers
+
+type c01Tail struct {
+	r      *Reader
+	next   int64 // next offset the harness expects from this reader
+	out    chan vfRec
+	errc   chan error
+	cancel context.CancelFunc
+	id     int
+}
+
+// parked reports whether the reader goroutine is blocked waiting for data at
+// the end of the log (registered as a waiter of a segment).
+func (c *c01Tail) parked(l *commitLog) bool {
+	ur, ok := c.r.ctxReader.(*uncommittedReader)
+	if !ok {
+		return false
+	}
+	for _, s := range l.Segments() {
+		s.RLock()
+		_, ok := s.waiters[ur]
+		s.RUnlock()
+		if ok {
+			return true
+		}
+	}
+	return false
+}
+
+// TestVerifC01Tail: long-lived uncommitted readers that are PARKED at the end
+// of the log while the log is appended to, rolled and truncated (what a
+// follower-serving or tailing reader experiences).  After every append each
+// parked reader must deliver exactly the new messages, in order.
+func TestVerifC01Tail(t *testing.T) {
+	rep := kit.NewReport("C01", "tail")
+	defer rep.Write()
+	rep.SetRule("seeded programs over {append batch 1..5, replicated message set, truncate (mid-segment / segment base / last / newest+1), explicit roll check} with 1-3 tail-following uncommitted readers; before every append each reader is observed parked in a segment's waiter map, after it each must deliver exactly the appended messages in order (a wrong offset is a violation at once; a reader that delivers nothing within the watchdog is inconclusive); readers positioned beyond a truncation point are replaced; non-trivial = program truncated mid-segment and then rolled while a reader was parked; distinct = program text + segment size")
+	root := kit.NewRNG(kit.Mix(kit.Seed(), 0xC017))
+	nprog := kit.Scale(120, 1500)
+	seeds := make([]uint64, nprog)
+	for i := range seeds {
+		seeds[i] = root.Uint64()
+	}
+	kit.Parallel(nprog, kit.Workers(), func(p int) {
+		if rep.NumViolations() >= 6 {
+			return
+		}
+		rng := kit.NewRNG(seeds[p])
+		maxSeg := []int64{100, 250, 600}[rng.Intn(3)]
+		c := newC01Run(rep, rng, maxSeg)
+		defer c.cleanup()
+		if err := c.open(); err != nil {
+			rep.Violation("C01:open-error", err.Error(), nil)
+			return
+		}
+		var tails []*c01Tail
+		nextID := 0
+		newTail := func(start int64) {
+			r, err := c.log.NewReader(start, true)
+			if err != nil {
+				if start < c.next() {
+					c.fail("C01:reader-open", fmt.Sprintf("NewReader(%d, uncommitted) failed: %v", start, err))
+				}
+				return
+			}
+			ctx, cancel := context.WithCancel(context.Background())
+			tl := &c01Tail{r: r, next: start, out: make(chan vfRec, 64), errc: make(chan error, 1), cancel: cancel, id: nextID}
+			nextID++
+			go func() {
+				hb := make([]byte, 28)
+				for {
+					m, off, ts, ep, err := r.ReadMessage(ctx, hb)
+					if err != nil {
+						tl.errc <- err
+						return
+					}
+					rec, derr := vfDecode(m, off, ts, ep)
+					if derr != nil {
+						tl.errc <- derr
+						return
+					}
+					// copy: the slices alias the read buffer
+					rec.Key = append([]byte(nil), rec.Key...)
+					if rec.Key != nil && len(rec.Key) == 0 {
+						rec.Key = []byte{}
+					}
+					rec.Val = append([]byte(nil), rec.Val...)
+					select {
+					case tl.out <- rec:
+					case <-ctx.Done():
+						return
+					}
+				}
+			}()
+			tails = append(tails, tl)
+		}
+		// drain: each tail must deliver model[next:], in order
+		drain := func(phase string) {
+			for _, tl := range tails {
+				for tl.next < c.next() && !c.failed {
+					select {
+					case rec := <-tl.out:
+						want := c.model[tl.next]
+						if rec.Off != want.Off {
+							c.fail("C01:tail-reader-skipped-or-repeated", fmt.Sprintf("%s: tail reader #%d (parked at the log end before the append) delivered offset %d, expected %d", phase, tl.id, rec.Off, want.Off))
+							return
+						}
+						if !bytes.Equal(rec.Val, want.Val) || rec.TS != want.TS || rec.Epoch != want.Epoch {
+							c.fail("C01:tail-reader-content", fmt.Sprintf("%s: tail reader #%d delivered %v, expected %v", phase, tl.id, rec, want))
+							return
+						}
+						tl.next++
+						rep.Count("tail_reads", 1)
+					case err := <-tl.errc:
+						c.fail("C01:tail-reader-error", fmt.Sprintf("%s: tail reader #%d failed at offset %d: %v", phase, tl.id, tl.next, err))
+						return
+					case <-time.After(10 * time.Second):
+						rep.Inconc(fmt.Sprintf("program %d: tail reader #%d delivered nothing for offset %d within the watchdog (%s; program %s)", p, tl.id, tl.next, phase, strings.Join(c.trace, " ")))
+						c.failed = true
+						return
+					}
+				}
+			}
+		}
+		waitParked := func() {
+			for _, tl := range tails {
+				ok := false
+				for i := 0; i < 4000; i++ {
+					if tl.parked(c.log) {
+						ok = true
+						break
+					}
+					time.Sleep(50 * time.Microsecond)
+				}
+				if ok {
+					rep.Count("tail_readers_observed_parked", 1)
+				}
+			}
+		}
+		midTrunc, rolledAfter := false, false
+		nops := rng.Range(8, 26)
+		c.step(c01Op{Kind: "A", N: 3})
+		newTail(int64(rng.Intn(3)))
+		drain("initial")
+		for i := 0; i < nops && !c.failed; i++ {
+			switch x := rng.Intn(100); {
+			case x < 45:
+				waitParked()
+				segs := len(c.log.Segments())
+				c.step(c01Op{Kind: "A", N: rng.Range(1, 5)})
+				if midTrunc && len(c.log.Segments()) > segs {
+					rolledAfter = true
+				}
+				drain("after-append")
+			case x < 60:
+				waitParked()
+				n := rng.Range(1, 5)
+				segs := len(c.log.Segments())
+				c.step(c01Op{Kind: "M", N: n, Chunk: rng.Range(1, n)})
+				if midTrunc && len(c.log.Segments()) > segs {
+					rolledAfter = true
+				}
+				drain("after-message-set")
+			case x < 85:
+				class := []int{2, 3, 6, 6, 6, 0}[rng.Intn(6)]
+				off, cl := c.truncOffset(rng, class)
+				// is the cut strictly inside a segment?
+				for _, s := range c.log.Segments() {
+					if off > s.BaseOffset && off <= s.LastOffset() {
+						midTrunc = true
+					}
+				}
+				c.step(c01Op{Kind: "T", Arg: off, Class: cl})
+				// readers that were beyond the cut are replaced by fresh ones at the new end
+				var keep []*c01Tail
+				for _, tl := range tails {
+					if tl.next > c.next() {
+						tl.cancel()
+						continue
+					}
+					keep = append(keep, tl)
+				}
+				replaced := len(tails) - len(keep)
+				tails = keep
+				for k := 0; k < replaced; k++ {
+					if c.next() > 0 {
+						newTail(c.next() - int64(rng.Intn(2)))
+					}
+				}
+				drain("after-truncate")
+			case x < 92:
+				if len(tails) < 3 && c.next() > 0 {
+					newTail(int64(rng.Intn(int(c.next()))))
+					drain("new-reader")
+				}
+			default:
+				if _, err := c.log.checkAndPerformSplit(); err != nil {
+					c.fail("C01:split-error", err.Error())
+				}
+				c.trace = append(c.trace, "S")
+			}
+		}
+		for _, tl := range tails {
+			tl.cancel()
+		}
+		rep.Eval()
+		if midTrunc && rolledAfter {
+			rep.Nontrivial(fmt.Sprintf("%d|%s", maxSeg, strings.Join(c.trace, " ")))
+		}
+		if p < 2 {
+			rep.Sample(map[string]any{"maxSegmentBytes": maxSeg, "program": strings.Join(c.trace, " "), "tail_readers": nextID})
+		}
+	})
 }
